@@ -185,6 +185,29 @@ Example C02_former_witness_bid_negative_rejected :
    effect_bid_counter l true 0 1 7 5 = None /\ total 0 (run_tx l (unlock_ops l 1 7)) = 100 /\ holdings 1 0 (run_tx l (unlock_ops l 1 7)) = 100).
 Proof. vm_compute. repeat split; reflexivity. Qed.
 
+(* ---------------- wrapped currencies: "for wrapped currencies, [the total grows only] by locks or failed-redeem refunds" ----------------
+   the mint of a finalised lock creates exactly the locked amount in its currency; a redeem destroys; the refund of a failed
+   redeem restores exactly what that redeem burnt (burn .. refund is neutral, whatever happens in between) *)
+Theorem C02_eth_lock_mint_is_the_allowance : forall owner cur locked c,
+  minted c (effect_eth_lock_mint owner cur locked) - burned c (effect_eth_lock_mint owner cur locked) = if (cur =? c)%N then locked else 0.
+Proof. exact eth_lock_mint_stmt. Qed.
+Print Assumptions C02_eth_lock_mint_is_the_allowance.
+Theorem C02_eth_redeem_then_refund_neutral : forall owner cur amount ops mid c, effect_eth_redeem_burn owner cur amount = Some ops ->
+  minted c (ops ++ mid ++ effect_eth_redeem_refund owner cur amount) - burned c (ops ++ mid ++ effect_eth_redeem_refund owner cur amount)
+  = minted c mid - burned c mid.
+Proof. exact eth_redeem_then_refund_stmt. Qed.
+Print Assumptions C02_eth_redeem_then_refund_neutral.
+Theorem C02_no_creation_eth_redeem : forall owner cur amount payer fp fee ops, 0 <= fee -> effect_eth_redeem_burn owner cur amount = Some ops ->
+  no_creation (ops ++ fee_ops payer fp fee) /\ credits_ok (ops ++ fee_ops payer fp fee) /\ takes_only_from (ops ++ fee_ops payer fp fee) [owner; payer].
+Proof. exact eth_redeem_burn_stmt. Qed.
+Print Assumptions C02_no_creation_eth_redeem.
+(* a refund that differs from the burn is NOT neutral (what the monitor "refund of tracker T = amount burnt at T's creation" looks for) *)
+Example C02_ex_refund_must_equal_burn :
+  let l := ladd ∅ (bal 1 1) 500 in
+  total 1 (run_tx l ([Burn (bal 1 1) 200] ++ effect_eth_redeem_refund 1 1 200)) = 500 /\
+  total 1 (run_tx l ([Burn (bal 1 1) 1] ++ effect_eth_redeem_refund 1 1 100000)) = 100499.
+Proof. vm_compute. auto. Qed.
+
 (* a transaction that creates nothing does not raise the total; lifted to blocks / histories by C02_block_total_bound *)
 Theorem C02_no_creation_total : forall c l ops, no_creation ops -> total c (run_tx l ops) <= total c l.
 Proof. exact no_creation_total. Qed.
